@@ -344,6 +344,15 @@ pub fn parse_args() -> Options {
     o
 }
 
+/// the function-level differential of `verify_mmr_proof` as a part of the check of `prop`
+fn mmr_part(opts: &Options, prop: &str) -> Report {
+    let mut m = mmr::run(opts);
+    for v in m.violations.iter_mut() {
+        v.signature = format!("{}|mmr|{}", prop, v.signature);
+    }
+    m
+}
+
 pub fn main() {
     let opts = parse_args();
     silence_panics();
@@ -362,10 +371,21 @@ pub fn main() {
                     .unwrap_or(true)
             };
             let with_matched = has("matched-seed");
-            let with_histories = has("history-seed") || !with_matched;
-            let mut r = if with_histories { prove::run(&opts, "C01") } else { c01m::run(&opts) };
+            let with_mmr = has("mmr-case");
+            let only_mmr = opts.replay.is_some() && with_mmr && !has("matched-seed") && !has("history-seed");
+            let with_histories = (has("history-seed") || !with_matched) && !only_mmr;
+            let mut r = if only_mmr {
+                mmr_part(&opts, "C01")
+            } else if with_histories {
+                prove::run(&opts, "C01")
+            } else {
+                c01m::run(&opts)
+            };
             if with_histories && with_matched {
                 r.merge(c01m::run(&opts));
+            }
+            if with_mmr && !only_mmr {
+                r.merge(mmr_part(&opts, "C01"));
             }
             r
         }
@@ -393,7 +413,23 @@ pub fn main() {
             }
             r
         }
-        "C02" | "C16" => c02::run(&opts, &opts.property.clone()),
+        "C02" => {
+            // attack histories + what the MMR verdict they take as an input means
+            // (`verify_mmr_proof` against the Mmr model and the soundness oracle)
+            let text = opts.replay.as_ref().map(|p| std::fs::read_to_string(p).unwrap_or_default());
+            let has = |key: &str| text.as_ref().map(|t| t.lines().any(|l| l.split_whitespace().next() == Some(key))).unwrap_or(true);
+            let only_mmr = opts.replay.is_some() && has("mmr-case") && !has("history-seed");
+            if only_mmr {
+                mmr_part(&opts, "C02")
+            } else {
+                let mut r = c02::run(&opts, "C02");
+                if has("mmr-case") {
+                    r.merge(mmr_part(&opts, "C02"));
+                }
+                r
+            }
+        }
+        "C16" => c02::run(&opts, "C16"),
         "C04" => c04::run(&opts),
         "C06" => {
             // full-stack attack histories + the agreement on the latest filter hashes alone
